@@ -17,3 +17,15 @@ PROPS["C03"] = {
     "level_note": "Trusted: Lean kernel; ruint primitives as defined in Util/Word.lean; the model is tied to the compiled opcode handlers by differential correspondence (boundary cross product + random), not by proof.",
     "trusted_base": ["ruint primitive operations (+,-,*,/,%,pow loop body, shifts, bit, add_mod, mul_mod) as defined in Revm/Util/Word.lean"],
 }
+
+PROPS["C05"] = {
+    "tables": True, "exhaustive": True,
+    "streams": [{"comp": "C05", "quick_n": 0, "thorough_n": 0,
+                 "nontrivial": lambda q, a: True}],
+    "rule": "EXHAUSTIVE: all 256 opcode bytes x every SpecId (21), each executed at interpreter level (single instruction, 17 stack items) and through Evm::transact (17 PUSH1 + op), and 37 addresses (0..=0x20, 0xff, 0x100, 0x101, 0xdead) x every SpecId (direct precompile set, handler-loaded set, behaviour of a call transaction compared with a call to an empty account). Every probe is distinct and counted; the same enumeration is regenerated into lean/Revm/Gen/Tables.lean and decided by the kernel.",
+    "explanation": "Finite property, enumerated completely: the tables are dumped from the compiled implementation on every run and the theorems (decide +kernel over the whole table, lifted to membership form) compare them with hand-written EIP activation tables. The correspondence stream repeats the same probes as request lines so that a failing obligation comes with a concrete (spec, opcode/address) witness.",
+    "level_text": "Kernel-checked theorems over exhaustive behavioural tables regenerated from the compiled code on every run: for all 256 opcodes x all SpecIds the instruction behaves as undefined (NotActivated/OpcodeNotFound/EOF-only; transaction halts with the whole gas limit used) iff the EIP activation table says so; for every address x SpecId precompile membership (direct and via handler) and empty-account behaviour match the EIP table. The quantifier is finite and covered completely.",
+    "level_note": "Trusted: Lean kernel (decide +kernel); the dumper harness/src/bin/tables.rs + tools/tables2lean.py (observes behaviour of the compiled code through spec_to_generic! and Evm::transact); the hand-written EIP tables in Spec/Activation.lean. Optimism SpecIds are not in the default build's table.",
+    "technique": "Lean 4 decide +kernel over exhaustive tables regenerated from the compiled implementation, against hand-written EIP activation tables",
+    "trusted_base": ["table dumper harness/src/bin/tables.rs and tools/tables2lean.py", "hand-written EIP activation tables (Spec/Activation.lean)"],
+}
